@@ -37,6 +37,16 @@ DoResStr(ms, a) ==
   LET q == ResolveStrF(ms.mgr, MgrOf(ms, a.h), a.str) IN
   Ok([ms EXCEPT !.handed = @ \cup Hand(a.h, q)], q)
 
+(* Export(h, seq): exports do not change the state (C13), except that the exporters   *)
+(* which unify first re-validate names in bundles holding duplicate identifiers       *)
+(* (known finding KF-unified-registers): only the managers' side effects are kept.     *)
+Unifying == {"graph", "dot", "dotlabels", "unified"}
+ExportEffect(ms, h) ==
+  LET r == DoUnified(ms, [h |-> h, out |-> "~export"]) IN
+  [ms EXCEPT !.mgr = [m \in DOMAIN ms.mgr |-> r.st.mgr[m]]]
+DoExport(ms, a) ==
+  Ok(IF \E i \in 1..Len(a.seq) : a.seq[i] \in Unifying THEN ExportEffect(ms, a.h) ELSE ms, NoQN)
+
 ApplyF(ms, a) ==
   CASE a.op = "AddNs"      -> DoAddNs(ms, a)
     [] a.op = "SetDefault" -> DoSetDefault(ms, a)
@@ -58,7 +68,8 @@ ApplyF(ms, a) ==
     [] a.op = "GetRecord"  -> DoGetRecord(ms, a)
     [] a.op = "CompareAll" -> DoCompareAll(ms, a)
     [] a.op = "CopyRec"    -> DoCopyRec(ms, a)
-    [] a.op \in {"RT", "Export"} -> Ok(ms, NoQN)   \* exports do not change the state (C13)
+    [] a.op = "RT"         -> Ok(ms, NoQN)       \* serialisation does not change the state (C13)
+    [] a.op = "Export"     -> DoExport(ms, a)
     [] a.op = "IO"         -> Ok(ms, NoQN)       \* the stream side is IO.tla
     [] a.op = "Save"       -> Ok(ms, NoQN)       \* the file-system side is FS.tla
 
